@@ -168,8 +168,11 @@ impl Octree {
         let mut cell_offsets = vec![root.cells.len()];
         let mut vert_offsets = vec![0];
         for o in &out {
-            let (i, j) = o.cell.index.unwrap();
-            hermites[i][j as usize] = o.hermite;
+            // With a depth of 0 nothing is split: the root itself is the only
+            // task, and it has no parent to collect its hermite data
+            if let Some((i, j)) = o.cell.index {
+                hermites[i][j as usize] = o.hermite;
+            }
             let c = cell_offsets.last().unwrap() + o.octree.cells.len();
             cell_offsets.push(c);
             let v = vert_offsets.last().unwrap() + o.octree.verts.len();
